@@ -449,39 +449,49 @@ theorem convNet_ok (bn : Bool) (m : Nat) : ∀ (s : Shape) (stk tr), Pos s →
     · simp only [if_true, List.cons_append, List.nil_append]
       rw [run_cons_ok (step_emit _ _ _)]; exact em _
 
-theorem gruBlock_repl_ok (idx : Nat) (s : Shape) (stk tr) (H : Pos s) :
-    run (gruBlock true idx) ⟨s, stk, tr⟩ = .ok ⟨s, stk, tr⟩ := by
-  have hs : s = s.map id := by simp
-  have key : run (gruBlock true idx) ⟨s.map id, stk, tr⟩ = .ok ⟨s.map id, stk, tr⟩ := by
-    have rp : ∀ p, step (.replPad p) ⟨s.map id, stk, tr⟩ = .ok ⟨s.map (fun n => id n + 2 * p), stk, tr⟩ := by
-      intro p; exact axes_map stk tr (by intro n hn; have := H n hn; simp; omega)
-    have cv : ∀ k p d, 1 ≤ k → d * (k - 1) = 2 * p → step (.conv k 1 0 d) ⟨s.map (fun n => id n + 2 * p), stk, tr⟩ =
-        .ok ⟨s.map id, stk, tr⟩ := by
-      intro k p d hk hd
-      rw [stepm_conv stk tr (by intro n hn; have := H n hn; simp [convOk]; omega)]
-      congr 2; apply List.map_congr_left; intro n hn; have := H n hn
-      simp only [convOut, id, Nat.div_one]; omega
+theorem gruBlock_ok (repl : Bool) (idx : Nat) (s : Shape) (stk tr) (H : Pos s) :
+    run (gruBlock repl idx) ⟨s, stk, tr⟩ = .ok ⟨s, stk, tr⟩ := by
+  cases repl
+  · -- zero padding: a stride-1 conv whose padding compensates the dilated kernel
     by_cases h0 : idx = 0
     · subst h0
-      rw [show gruBlock true 0 = [.replPad 2, .conv 5 1 0 1] by decide,
-        run_cons_ok (rp 2), run_cons_ok (cv 5 2 1 (by decide) (by decide))]; rfl
+      rw [show gruBlock false 0 = [.conv 5 1 2 1] by decide, run_cons_ok (step_conv_same (by decide) (by decide) stk tr H)]; rfl
     · by_cases h1 : idx = 1
       · subst h1
-        rw [show gruBlock true 1 = [.replPad 2, .conv 3 1 0 2] by decide,
-          run_cons_ok (rp 2), run_cons_ok (cv 3 2 2 (by decide) (by decide))]; rfl
-      · rw [show gruBlock true idx = [.replPad 1, .conv 3 1 0 1] by simp [gruBlock, h0, h1],
-          run_cons_ok (rp 1), run_cons_ok (cv 3 1 1 (by decide) (by decide))]; rfl
-  rwa [← hs] at key
+        rw [show gruBlock false 1 = [.conv 3 1 2 2] by decide, run_cons_ok (step_conv_same (by decide) (by decide) stk tr H)]; rfl
+      · rw [show gruBlock false idx = [.conv 3 1 1 1] by simp [gruBlock, h0, h1],
+          run_cons_ok (step_conv_same (by decide) (by decide) stk tr H)]; rfl
+  · have hs : s = s.map id := by simp
+    have key : run (gruBlock true idx) ⟨s.map id, stk, tr⟩ = .ok ⟨s.map id, stk, tr⟩ := by
+      have rp : ∀ p, step (.replPad p) ⟨s.map id, stk, tr⟩ = .ok ⟨s.map (fun n => id n + 2 * p), stk, tr⟩ := by
+        intro p; exact axes_map stk tr (by intro n hn; have := H n hn; simp; omega)
+      have cv : ∀ k p d, 1 ≤ k → d * (k - 1) = 2 * p → step (.conv k 1 0 d) ⟨s.map (fun n => id n + 2 * p), stk, tr⟩ =
+          .ok ⟨s.map id, stk, tr⟩ := by
+        intro k p d hk hd
+        rw [stepm_conv stk tr (by intro n hn; have := H n hn; simp [convOk]; omega)]
+        congr 2; apply List.map_congr_left; intro n hn; have := H n hn
+        simp only [convOut, id, Nat.div_one]; omega
+      by_cases h0 : idx = 0
+      · subst h0
+        rw [show gruBlock true 0 = [.replPad 2, .conv 5 1 0 1] by decide,
+          run_cons_ok (rp 2), run_cons_ok (cv 5 2 1 (by decide) (by decide))]; rfl
+      · by_cases h1 : idx = 1
+        · subst h1
+          rw [show gruBlock true 1 = [.replPad 2, .conv 3 1 0 2] by decide,
+            run_cons_ok (rp 2), run_cons_ok (cv 3 2 2 (by decide) (by decide))]; rfl
+        · rw [show gruBlock true idx = [.replPad 1, .conv 3 1 0 1] by simp [gruBlock, h0, h1],
+            run_cons_ok (rp 1), run_cons_ok (cv 3 1 1 (by decide) (by decide))]; rfl
+    rwa [← hs] at key
 
-theorem gruLayers_ok (inorm : Bool) (m : Nat) : ∀ (s : Shape) (stk tr), Pos s → (inorm = true → 1 < numel s) →
-    ∃ tr', run (gruLayers true inorm m) ⟨s, s :: stk, tr⟩ = .ok ⟨s, s :: stk, tr'⟩ := by
+theorem gruLayers_ok (repl inorm : Bool) (m : Nat) : ∀ (s : Shape) (stk tr), Pos s → (inorm = true → 1 < numel s) →
+    ∃ tr', run (gruLayers repl inorm m) ⟨s, s :: stk, tr⟩ = .ok ⟨s, s :: stk, tr'⟩ := by
   induction m with
   | zero => intro s stk tr _ _; exact ⟨tr, rfl⟩
   | succ m ih =>
     intro s stk tr H Hn
     obtain ⟨tr1, h1⟩ := ih s stk tr H Hn
     simp only [gruLayers, List.append_assoc, List.cons_append, List.nil_append]
-    rw [run_append_ok h1, run_append_ok (gruBlock_repl_ok m s _ _ H), run_cons_ok (step_emit _ _ _),
+    rw [run_append_ok h1, run_append_ok (gruBlock_ok repl m s _ _ H), run_cons_ok (step_emit _ _ _),
       run_cons_ok (step_popSame _ _ _), run_cons_ok (step_push _ _ _)]
     cases inorm
     · exact ⟨_, rfl⟩
@@ -489,11 +499,11 @@ theorem gruLayers_ok (inorm : Bool) (m : Nat) : ∀ (s : Shape) (stk tr), Pos s 
       rw [run_cons_ok (step_instNorm _ _ (Hn rfl))]
       exact ⟨_, rfl⟩
 
-theorem gru_ok (inorm : Bool) (layers : Nat) (s : Shape) (stk tr) (H : Pos s) (Hn : inorm = true → 1 < numel s) :
-    ∃ tr', run (gru true inorm layers) ⟨s, stk, tr⟩ = .ok ⟨s, s :: stk, tr'⟩ := by
-  obtain ⟨tr1, h1⟩ := gruLayers_ok inorm layers s stk tr H Hn
+theorem gru_ok (repl inorm : Bool) (layers : Nat) (s : Shape) (stk tr) (H : Pos s) (Hn : inorm = true → 1 < numel s) :
+    ∃ tr', run (gru repl inorm layers) ⟨s, stk, tr⟩ = .ok ⟨s, s :: stk, tr'⟩ := by
+  obtain ⟨tr1, h1⟩ := gruLayers_ok repl inorm layers s stk tr H Hn
   simp only [gru, List.append_assoc, List.cons_append, List.nil_append]
-  rw [run_cons_ok (step_push _ _ _), run_append_ok h1, run_append_ok (gruBlock_repl_ok layers s _ _ H),
+  rw [run_cons_ok (step_push _ _ _), run_append_ok h1, run_append_ok (gruBlock_ok repl layers s _ _ H),
     run_cons_ok (step_emit _ _ _)]
   exact ⟨_, rfl⟩
 
